@@ -1,4 +1,5 @@
 import Model.Mux
+import Model.MuxRx
 import Driver.Util
 namespace Driver.C01
 open Util Mux
@@ -28,6 +29,41 @@ def verdict (m : Mon) : String :=
 def expectedAvail (m : Mon) : Nat :=
   m.cap - 1 - (m.slot.filter fun e => e.2.2 == false).length
 
+/-- items of a scripted socket: `T` = read-deadline expiry point, otherwise hex bytes -/
+def parseItems : List String → Option Rx.Src
+  | [] => some []
+  | "T" :: r => (parseItems r).map (none :: ·)
+  | w :: r => do
+    let bs ← parseHex w
+    let rest ← parseItems r
+    pure (bs.map some ++ rest)
+
+def parseIds (w : String) (waiting : Bool) : Option Rx.Calls :=
+  if w == "-" then some [] else
+  (w.splitOn ",").foldr (fun x acc => do
+    let n ← x.toNat?
+    let r ← acc
+    pure ((n, waiting) :: r)) (some [])
+
+def rxAnswer (proto tmo waiting gone : String) (items : List String) : String :=
+  match proto.toNat?, tmo.toNat?, parseIds waiting true, parseIds gone false, parseItems items with
+  | some p, some t, some ws, some gs, some src => (Rx.recv p (t != 0) (ws ++ gs) src).text
+  | _, _, _, _, _ => "bad-op"
+
+def rdAnswer (tmo k : String) (items : List String) : String :=
+  match tmo.toNat?, k.toNat?, parseItems items with
+  | some t, some n, some src =>
+    let x := Rx.connRead (t != 0) Rx.maxAttempts src n
+    let e := match x.2.1 with | .ok => "ok" | .timeout => "tmo" | .eof => "eof"
+    s!"{x.1.length}:{e}:{Rx.hex32 (Rx.fnv32 x.1)}:{(Rx.bytes x.2.2).length}"
+  | _, _, _ => "bad-op"
+
+/-- the connection on which token `t` was requested (tokens are unique per run) -/
+def connOfToken (s : S) (t : Nat) : Nat :=
+  match s.mons.find? (fun e => (e.2.sent.any (·.1 == t)) || (e.2.slot.any (·.2.1 == t))) with
+  | some (k, _) => k
+  | none => 0
+
 def step (s : S) (ws : List String) : S × String :=
   match ws with
   | ["reset", cap] => match cap.toNat? with
@@ -42,20 +78,47 @@ def step (s : S) (ws : List String) : S × String :=
           let m := (getMon s k).step (.req sid.toNat tok)
           (setMon s k m, verdict m)
       | _, _, _ => (s, "bad-op")
-  | ["resp", conn, st, t] => match conn.toNat?, st.toNat?, t.toNat? with
-      | some k, some sid, some tok =>
-        let m := (getMon s k).step (.resp sid tok)
+  | ["resp", conn, st, t, kd, w] => match conn.toNat?, st.toNat?, t.toNat?, kd.toNat?, w.toNat? with
+      | some k, some sid, some tok, some kind, some cont =>
+        let m := (getMon s k).step (.resp sid tok kind cont)
+        (setMon s k m, verdict m)
+      | _, _, _, _, _ => (s, "bad-op")
+  | ["got", _, t, kd, u] => match t.toNat?, kd.toNat?, u.toNat? with
+      | some a, some kind, some b =>
+        let k := connOfToken s a
+        let m := (getMon s k).step (.got a kind b)
         (setMon s k m, verdict m)
       | _, _, _ => (s, "bad-op")
-  | ["got", conn, t, u] => match conn.toNat?, t.toNat?, u.toNat? with
-      | some k, some a, some b =>
-        let m := (getMon s k).step (.got a b)
+  | ["stray", conn, st] => match conn.toNat?, st.toNat? with
+      | some k, some sid =>
+        let m := (getMon s k).step (.stray sid)
         (setMon s k m, verdict m)
-      | _, _, _ => (s, "bad-op")
+      | _, _ => (s, "bad-op")
+  | ["event", conn] => match conn.toNat? with
+      | some k =>
+        let m := (getMon s k).step .event
+        (setMon s k m, verdict m)
+      | none => (s, "bad-op")
   | ["avail", conn] => match conn.toNat? with
       | some k => (s, toString (expectedAvail (getMon s k)))
       | none => (s, "bad-op")
   | ["calls", a] => (s, a)      -- every started call must have returned exactly once: answer = number started
+  -- a connection that neither side was entitled to close (well-formed frames only, no body stalled for five
+  -- read deadlines: Rx theorems) is still open at quiescence …
+  | ["alive", _] => (s, "open")
+  -- … and every probe request sent then gets its own answer
+  | ["probes", n] => (s, n)
+  -- the receive loop over a scripted socket (chunks and read-deadline expiries): `rx` = no frame body is
+  -- awaited through five deadlines (theorem C01_rx_sync: answer = the frames as sent, each to its call),
+  -- `rxk` = the excluded class (known finding), model = code as it is
+  | "rx" :: proto :: tmo :: waiting :: gone :: items => (s, rxAnswer proto tmo waiting gone items)
+  | "rxk" :: proto :: tmo :: waiting :: gone :: items => (s, rxAnswer proto tmo waiting gone items)
+  -- `rxo` = a frame on a reserved stream / with the compressed flag / a truncated stream: model = code as it is
+  | "rxo" :: proto :: tmo :: waiting :: gone :: items => (s, rxAnswer proto tmo waiting gone items)
+  -- one Conn.Read: `rd` = enough bytes and fewer than five expiries before the k-th byte (theorem C01_rx_read_ok:
+  -- exactly the next k bytes), `rdo` = short stream / gives up: model = code as it is
+  | "rd" :: tmo :: k :: items => (s, rdAnswer tmo k items)
+  | "rdo" :: tmo :: k :: items => (s, rdAnswer tmo k items)
   | _ => (s, "bad-op")
 
 end Driver.C01
